@@ -26,8 +26,55 @@ def load():
     here = os.path.realpath(stationeers_pytrapic.__file__)
     if not here.startswith(os.path.realpath(SRC) + os.sep):
         raise HarnessError(f"stationeers_pytrapic imported from {here}, expected under {SRC}")
+    if not _loaded:
+        _install_fast_infer()
     _loaded = True
     return compiler
+
+
+# ---------------------------------------------------------------------------------------------
+# Speed instrumentation (harness side only, nothing in /repo changes).  utils.is_constant() ends in
+#     try: inferred = node.inferred()  except Exception: return False, None
+#     return False, None
+# i.e. the astroid inference result is discarded, but inference dominates compile time (10x) on
+# generated programs.  While FAST["on"], calls to .inferred() made from inside is_constant raise
+# InferenceError at once, which takes the same `return False, None` path.  compile_src()
+# re-compiles every Nth program with the switch off and compares the two results; on the first
+# difference the switch stays off for the rest of the process (noted in the evidence), so a tree in
+# which inference starts to matter is still judged by its real behaviour.
+FAST = {"on": os.environ.get("PV_FAST_INFER", "1") != "0", "checked": 0, "disabled_because": None, "n": 0}
+_depth = [0]
+
+
+def _install_fast_infer():
+    import astroid
+    from stationeers_pytrapic import compile_pass, utils
+
+    orig_inferred = astroid.nodes.NodeNG.inferred
+
+    def inferred(self, context=None):
+        if FAST["on"] and _depth[0] > 0:
+            raise astroid.InferenceError("skipped by the verification harness")
+        return orig_inferred(self, context)
+
+    astroid.nodes.NodeNG.inferred = inferred
+    orig = utils.is_constant
+
+    def is_constant(node, data):
+        _depth[0] += 1
+        try:
+            return orig(node, data)
+        finally:
+            _depth[0] -= 1
+
+    is_constant.__wrapped__ = orig
+    utils.is_constant = is_constant
+    if getattr(compile_pass, "is_constant", None) is orig:
+        compile_pass.is_constant = is_constant
+
+
+def _strip(res):
+    return {k: v for k, v in res.items() if k != "_verif"}
 
 
 HDR = "from stationeers_pytrapic.symbols import *\n"
@@ -63,4 +110,18 @@ def compile_src(src, opts=None):
     o.update(opts or {})
     if isinstance(src, dict):
         src = dict(src)
-    return comp.compile_code(src, comp.CompileOptions(**o))
+    res = comp.compile_code(src, comp.CompileOptions(**o))
+    if FAST["on"]:
+        FAST["n"] += 1
+        if FAST["n"] % 20 == 1:
+            FAST["on"] = False
+            try:
+                slow = comp.compile_code(dict(src) if isinstance(src, dict) else src, comp.CompileOptions(**o))
+            finally:
+                FAST["on"] = True
+            FAST["checked"] += 1
+            if _strip(slow) != _strip(res):
+                FAST["on"] = False
+                FAST["disabled_because"] = "result with inference skipped differs from the real result"
+                return slow
+    return res
